@@ -5,10 +5,10 @@ P=$(readlink -f "$1"); shift
 TIER=quick
 W=/tmp/seedrun.$$; mkdir -p $W
 git -C /repo worktree add -q --detach $W/lisp HEAD || exit 2
-trap 'git -C /repo worktree remove --force $W/lisp 2>/dev/null; rm -rf $W /verif/.work/*-alt$$ /verif/.work/*-evidence-alt$$.json /verif/.work/alt-*.mod /verif/.work/alt-*.sum /verif/.work/bin/vcheck*-alt-*' EXIT
+trap 'git -C /repo worktree remove --force $W/lisp 2>/dev/null; rm -rf $W ${VROOT:-/verif}/.work/*-alt$$ ${VROOT:-/verif}/.work/*-evidence-alt$$.json ${VROOT:-/verif}/.work/alt-*.mod ${VROOT:-/verif}/.work/alt-*.sum ${VROOT:-/verif}/.work/bin/vcheck*-alt-*' EXIT
 git -C $W/lisp apply "$P" || exit 2
 export VERIF_REPO_DIR=$W/lisp VERIF_WORK_SUFFIX=-alt$$
-cd /verif
+cd ${VROOT:-/verif}
 for a in "$@"; do case $a in quick|thorough) TIER=$a;; esac; done
 for a in "$@"; do
   case $a in quick|thorough) continue;; esac
